@@ -195,22 +195,35 @@ func encReuse(ctx *Ctx, t *tape.Tape, a, b []world.Op, cut int, cause abortCause
 	var notes []string
 	var v *report.Violation
 	if p, _, msg := guard(func() { notes, _ = abortEncoder(t, &e, a, cut, cause) }); p {
-		return viol("C17", "panic", "first use panicked: %s", msg)
+		_ = msg // a panic as such is C02's business; nothing about reuse is concluded
+		if ctx.Stats != nil {
+			ctx.Stats.Add("cases_set_aside_because_the_code_panicked", 1)
+		}
+		return nil
 	}
 	if t.Chance(1, 3) {
 		e.HighResolutionCoordinates = true // flag set right before the restart: Reset must clear it
 		notes = append(notes, "HighResolutionCoordinates=true set before Reset")
 	}
 	var got, want encOutcome
-	if p, _, msg := guard(func() {
+	pReused, _, msgReused := guard(func() {
 		world.Run(world.Target{Dst: &e, Enc: &e}, b)
 		got = encOutcomeOf(&e)
-	}); p {
-		return viol("C17", "panic", "second use on the reused Encoder panicked: %s", msg)
-	}
+	})
 	var f encode.Encoder
-	world.Run(world.Target{Dst: &f, Enc: &f}, b)
-	want = encOutcomeOf(&f)
+	pFresh, _, _ := guard(func() {
+		world.Run(world.Target{Dst: &f, Enc: &f}, b)
+		want = encOutcomeOf(&f)
+	})
+	if pReused && pFresh {
+		if ctx.Stats != nil {
+			ctx.Stats.Add("cases_set_aside_because_the_code_panicked", 1)
+		}
+		return nil
+	}
+	if pReused != pFresh {
+		return viol("C17", "encoder-reuse", "the second use panics on the reused Encoder (%t: %s) but not on a fresh one (%t)", pReused, msgReused, pFresh)
+	}
 	ctx.Beat()
 	ctx.Fold(fnv(got.b))
 	if d := got.diff(want); d != "" {
@@ -361,7 +374,11 @@ func rendReuse(ctx *Ctx, t *tape.Tape, as [][]world.Op, cuts []int, causes []abo
 		if p, _, msg := guard(func() { notes = append(notes, abortRenderer(t, &r, as[i], cuts[i], causes[i])...) }); p {
 			// a panic of the first use is C02's business only for decoded input;
 			// direct out-of-order calls cannot happen here (A is well formed)
-			return viol("C17", "panic", "first use of the Renderer panicked: %s", msg)
+			_ = msg // a panic as such is C02's business
+			if ctx.Stats != nil {
+				ctx.Stats.Add("cases_set_aside_because_the_code_panicked", 1)
+			}
+			return nil
 		}
 		_ = disabledAtAbort
 	}
@@ -370,13 +387,20 @@ func rendReuse(ctx *Ctx, t *tape.Tape, as [][]world.Op, cuts []int, causes []abo
 		rect = *rect2
 	}
 	mark := len(z.Ops)
-	if p, _, msg := guard(func() { deliver(&r, b, viaBytes) }); p {
-		return viol("C17", "panic", "second use on the reused Renderer panicked: %s", msg)
-	}
+	pReused, _, msgReused := guard(func() { deliver(&r, b, viaBytes) })
 	z2 := &world.RecRaster{}
 	var r2 render.Renderer
 	r2.SetRasterizer(z2, rect)
-	deliver(&r2, b, viaBytes)
+	pFresh, _, _ := guard(func() { deliver(&r2, b, viaBytes) })
+	if pReused && pFresh {
+		if ctx.Stats != nil {
+			ctx.Stats.Add("cases_set_aside_because_the_code_panicked", 1)
+		}
+		return nil
+	}
+	if pReused != pFresh {
+		return viol("C17", "renderer-reuse", "the second use panics on the reused Renderer (%t: %s) but not on a fresh one (%t)", pReused, msgReused, pFresh)
+	}
 	got, want := z.Ops[mark:], z2.Ops
 	ctx.Beat()
 	ctx.Fold(uint64(len(want)))
@@ -836,6 +860,7 @@ func init() {
 						"second use drew something":                                                                 s.Counters["probe_second_use_drew_something"],
 						"second use painted a gradient":                                                             s.Counters["probe_second_use_painted_gradient"],
 						"more than one abort/restart round":                                                         s.Counters["probe_multiple_abort_restart_rounds"],
+						"cases set aside because the code panicked in both arms (C02 reports panics)":               s.Counters["cases_set_aside_because_the_code_panicked"],
 						"Bytes asked twice inside an open path":                                                     s.Counters["probe_bytes_twice_inside_open_path"],
 						"vec second use left pixels":                                                                s.Counters["probe_vec_second_use_left_pixels"],
 						"vec runs skipped (coordinates not moderate)":                                               s.Counters["vec_skipped_untame"],
